@@ -82,11 +82,15 @@ def observe_decisions(maxn, threads):
                         acc = False
                     finally:
                         _verif_trace.sink = None
+                    import numba
+                    eff = int(numba.get_num_threads())          # the thread count the deposit passes really ran with
                     cfgs = [e for e in ev if e['event'] == 'tsc_config']
                     p = cfgs[0]['npartition'] if cfgs else (arg or -1)
                     if acc and not cfgs:
                         raise RuntimeError('tsc_config hook event missing (is ABACUSUTILS_VERIF=1 and the hook commit present?)')
-                    out.append(dict(n1d=n1d, nthread=t, arg=arg, accepted=acc, np=max(int(p), 1) if acc else int(p), coord=coord))
+                    # judged with the larger of the requested and the effective thread count: a serial request that leaves numba
+                    # running more threads is concurrent whatever the validation assumed
+                    out.append(dict(n1d=n1d, nthread=max(t, eff) if acc else t, nthread_requested=t, arg=arg, accepted=acc, np=max(int(p), 1) if acc else int(p), coord=coord))
     return out
 
 
@@ -211,8 +215,8 @@ ASSUME JsonSerialize(IOEnv.VERDICT_OUT, [fixed |-> SetToSeq(UnsafePairs({maxn_ru
         chk.sample(dict(footprint={k: fps[0][k] for k in ('n1d', 'np', 'o', 'touched', 'nz')}))
     for i in v['unsafe']:
         d = dec[i - 1]
-        chk.violation(f'unsafe-accepted-{rel(d["n1d"], d["np"])}' + ('' if d.get('coord', 0) == 0 else '-coord>0'),
-                      f'tsc_parallel accepts n1d={d["n1d"]} (coord={d.get("coord", 0)}) nthread={d["nthread"]} npartition={"default" if d["arg"] == 0 else d["arg"]} -> {d["np"]} stripes{" (configuration recorded from tests/test_tsc.py)" if d.get("source") else ""}; '
+        chk.violation(f'unsafe-accepted-{rel(d["n1d"], d["np"])}' + ('' if d.get('coord', 0) == 0 else '-coord>0') + ('-threads-leak' if d.get('nthread_requested', d['nthread']) != d['nthread'] else ''),
+                      f'tsc_parallel accepts n1d={d["n1d"]} (coord={d.get("coord", 0)}) nthread={d.get("nthread_requested", d["nthread"])} (deposit ran with {d["nthread"]} numba threads) npartition={"default" if d["arg"] == 0 else d["arg"]} -> {d["np"]} stripes{" (configuration recorded from tests/test_tsc.py)" if d.get("source") else ""}; '
                       f'TLC: two stripes of the same pass update a common row', dict(kind='decision', **d))
     for i in v['conflicts']:
         f = fps[i - 1]
